@@ -230,6 +230,60 @@ Fixpoint attempts_labels (os : list outcome) : list plabel :=
   | o :: r => Attempt o :: Backoff :: attempts_labels r
   end.
 
+(* ---- the retry window: who says Stop ----
+   cenkalti/backoff v2.2.1 (the version in go.mod), exponential.go:
+     NewExponentialBackOff() ... b.Reset()            Reset: startTime = Clock.Now()   (SystemClock)
+     NextBackOff(): if MaxElapsedTime != 0 && GetElapsedTime() > MaxElapsedTime { return Stop }
+   (this version does not add the next interval to the elapsed time; MaxElapsedTime = 0 never stops,
+   the forwarder's constructor rejects 0 and maps "retries disabled" to -1, for which every
+   elapsed time >= 0 stops).  [stop_allowed] above is that test.  post() creates the policy right after
+   constructPost succeeded; the timed LTS below carries the clock readings as label arguments (an
+   arbitrary script of times) and lets the library's rule choose between Stop and Backoff.
+   [legacy = true] is the seeded variant /tmp/seed-out/C15/b: one policy built in the constructor at
+   time [hstart], copied by value per request and never Reset. *)
+Inductive tlabel :=
+| TConstruct (ok : bool) (now : Z)   (* constructPost; if ok, the request's policy is created at clock reading now *)
+| TAttempt (o : outcome)
+| TNext (now : Z)                    (* b.NextBackOff() called at clock reading now *)
+| TCtxDone.
+
+Record tstate := T {
+  t_p : pstate;
+  t_created : option Z;      (* ghost: when this request's post loop began *)
+  t_start : Z;               (* b.startTime *)
+  t_decided : option Z       (* ghost: clock reading of the NextBackOff call that returned Stop *)
+}.
+Definition tinit : tstate := T pinit None 0 None.
+
+Definition tstep (legacy cancellable : bool) (window hstart : Z) (s : tstate) (l : tlabel) : option tstate :=
+  match l with
+  | TConstruct ok now =>
+      match post_step cancellable (t_p s) (Construct ok) with
+      | Some p => Some (T p (Some now) (if legacy then hstart else now) None)
+      | None => None
+      end
+  | TAttempt o =>
+      match post_step cancellable (t_p s) (Attempt o) with
+      | Some p => Some (T p (t_created s) (t_start s) (t_decided s))
+      | None => None
+      end
+  | TNext now =>
+      if stop_allowed window (now - t_start s)
+      then match post_step cancellable (t_p s) Stop with
+           | Some p => Some (T p (t_created s) (t_start s) (Some now))
+           | None => None
+           end
+      else match post_step cancellable (t_p s) Backoff with
+           | Some p => Some (T p (t_created s) (t_start s) (t_decided s))
+           | None => None
+           end
+  | TCtxDone =>
+      match post_step cancellable (t_p s) CtxDone with
+      | Some p => Some (T p (t_created s) (t_start s) (t_decided s))
+      | None => None
+      end
+  end.
+
 (* ------------------------------------------------------------------------------------------ *)
 (* Part 3: the handler *)
 
@@ -379,4 +433,81 @@ Section Handler.
     match loop s with None => true | _ => false end
     && forallb (λ g, match g with GPosting [] => true | _ => false end) (gors s)
     && forallb r_released (reqs s).
+
+  (* ---- flush notifications (flush.Coordinator.NotifyFlush; the Lambda extension's WaitForFlush
+     consumes one per invocation) ----
+     one call per part of a flush: `notifyFlush(); continue` for an empty part, `notifyFlush()` after
+     postMetrics for a posted one.  A flush has as many parts as SplitByTags returns. *)
+  Definition parts_of (ms : list bag) : nat := length (bag_split dyn (concat ms)).
+  Definition gor_owes (g : gor) : nat :=
+    match g with GMerging ms => parts_of ms | GPosting parts => length parts end.
+  (* notifications still to come for flushes already read from the sink *)
+  Definition notif_pending (s : hstate) : nat :=
+    match loop s with Some ms => parts_of ms | None => 0 end
+    + list_sum (map gor_owes (gors s)) + holding_req s.
+  Definition notif_total (s : hstate) : nat := list_sum (map parts_of (received s)).
+
+  (* ---- shutdown: Run after ctx.Done ----
+     wg.StartWithContext(...){ <-ctx.Done() | consolidator.Run returns; hfh.Close() } closes
+     consolidatedMetrics; the `for range` loop ends once it is back at the receive; then Run's first
+     goroutine re-acquires every token: `for i < cap(metricsSem) { acquireSem() }`, then the same for
+     metricsMergingSem, and Run returns.  Nothing makes that tail wait for a flush goroutine that has
+     not yet called acquireSem() itself.  [patched = true] is the proposed repair: a WaitGroup over the
+     flush goroutines, waited for between the loop and the tail (notes/C15.md). *)
+  Record rstate := R {
+    r_h : hstate;
+    r_closed : bool;
+    r_treq : nat; r_tmerge : nat;     (* tokens the tail holds *)
+    r_returned : bool
+  }.
+  Inductive rlabel :=
+  | RH (l : hlabel)
+  | RClose            (* hfh.Close() *)
+  | RTailReq          (* one acquireSem() of the tail *)
+  | RTailMerge        (* one acquireMergingSem() of the tail *)
+  | RReturn.          (* wg.Wait() returns: Run returns *)
+
+  Definition rinit : rstate := R hinit false 0 0 false.
+
+  Definition flushes_done (h : hstate) : bool :=
+    match loop h with None => true | _ => false end
+    && forallb (λ g, match g with GPosting [] => true | _ => false end) (gors h).
+
+  Definition rstep (patched : bool) (s : rstate) (l : rlabel) : option rstate :=
+    let h := r_h s in
+    match l with
+    | RH hl =>
+        match hl, r_closed s with
+        | SinkRecv _, true => None          (* the channel is closed; the consolidator no longer flushes *)
+        | _, _ => match hstep h hl with
+                  | Some h' => Some (R h' (r_closed s) (r_treq s) (r_tmerge s) (r_returned s))
+                  | None => None
+                  end
+        end
+    | RClose =>
+        if negb (r_closed s) && nop_returned h      (* both goroutines of Run start after sendNop *)
+        then Some (R h true (r_treq s) (r_tmerge s) (r_returned s)) else None
+    | RTailReq =>
+        match req_free h with
+        | S n =>
+            if r_closed s && match loop h with None => true | _ => false end
+               && (negb patched || flushes_done h) && (r_treq s <? mr)%nat
+            then Some (R (H (merge_free h) n (loop h) (gors h) (reqs h) (notified h) (received h))
+                         true (S (r_treq s)) (r_tmerge s) (r_returned s))
+            else None
+        | O => None
+        end
+    | RTailMerge =>
+        match merge_free h with
+        | S n =>
+            if r_closed s && (r_treq s =? mr)%nat && (r_tmerge s <? cm)%nat
+            then Some (R (H n (req_free h) (loop h) (gors h) (reqs h) (notified h) (received h))
+                         true (r_treq s) (S (r_tmerge s)) (r_returned s))
+            else None
+        | O => None
+        end
+    | RReturn =>
+        if r_closed s && (r_treq s =? mr)%nat && (r_tmerge s =? cm)%nat
+        then Some (R h true (r_treq s) (r_tmerge s) true) else None
+    end.
 End Handler.
